@@ -1,7 +1,7 @@
 (** Model of the ring wake-up handshake: src/lib.rs [PollingState], src/io_uring/cq.rs
     [Completions::poll], src/io_uring/sq.rs [Submissions::wake] and [Shared::enter], for one
-    poller thread calling [Ring::poll(None)] and any number of waker threads calling
-    [SubmissionQueue::wake], against a kernel that executes MSG_RING (K6).
+    poller thread calling [Ring::poll(None)] or [Ring::poll(Some(finite timeout))] and any number
+    of waker threads calling [SubmissionQueue::wake], against a kernel that executes MSG_RING (K6).
 
     Small-step at the granularity of the hook-B scheduling points (one thread step = the code
     between two of them), so that an interleaving executed by the baton scheduler on the real
@@ -16,6 +16,17 @@
     [Shared::enter] turns EINTR into [Ok(0)] without [wake_blocked_futures];
     [Completions::poll] goes on with [set_polling(false)], reloads the tail, processes what is
     there, stores the head, runs the end-of-poll [wake_blocked_futures] and returns.
+
+    Per-poll timeouts: [tmos] says for each poll still to make whether the caller passed [None]
+    ([false]) or [Some(finite)] ([true]). [Completions::poll] uses a zero timeout when
+    [set_polling(true)] reported "awoken", whatever the caller passed, and the caller's timeout
+    otherwise; so a poll that blocks ([PInKernel]) waits without a timeout or with the caller's
+    finite one ([timed]). The duration itself is not modelled: a timed wait ends with ETIME (event
+    [Timeout]) exactly when the scheduler reports that nobody is left who could wake it — the
+    precondition of [Stuck], for a timed wait. [Shared::enter] turns ETIME into [Ok(0)] without
+    [wake_blocked_futures], the poll goes on with [set_polling(false)] like after EINTR. The ghost
+    [lost] is set when a wake-up is owed at that moment: the poll slept its whole timeout through
+    a wake-up.
 
     Futures parked on the blocked-futures list ([Shared::blocked_futures]: they were polled while
     the submission queue was full, [Submissions::wait_for_submission] pushed their waker): the
@@ -79,6 +90,8 @@ Record st := {
   holder : option nat;    (* submission lock *)
   pp : ppc;
   polls : nat;            (* poll() calls still to make, incl. the current one *)
+  tmos : list bool;       (* per poll() call still to make, incl. the current one: the caller's timeout is
+                             [Some(finite)] ([true]) or [None] ([false]; also when the list has run out) *)
   aw : bool;              (* local: set_polling(true) reported "awoken" *)
   lh : N;                 (* local: loaded SQ head *)
   seen : N;               (* local: completions the current poll will release *)
@@ -89,14 +102,17 @@ Record st := {
   wlh : list N;           (* per waker local: loaded SQ head *)
   (* ghost *)
   owed : bool;            (* a wake() was called since the last poll returned *)
-  lost : bool;            (* the poller blocked for ever although a wake-up was owed *)
+  lost : bool;            (* the poller blocked for ever, or slept its whole timeout, although a wake-up was owed *)
 }.
 
-Definition init (m : mode) (c prefill nparked : N) (npolls : nat) (wcalls : list nat) : st :=
+Definition init (m : mode) (c prefill nparked : N) (npolls : nat) (tm : list bool) (wcalls : list nat) : st :=
   {| md := m; cap := c; sqo := prefill; pstate := 0; sqh := 0; sqt := prefill; cq := 0; holder := None;
      pp := PIdle; polls := npolls; aw := false; lh := 0; seen := 0; psub := 0;
      wakers := map (fun c => {| wp := WIdle; calls := c; wok := false |}) wcalls;
-     wlh := map (fun _ => 0) wcalls; parked := nparked; owed := false; lost := false |}.
+     wlh := map (fun _ => 0) wcalls; parked := nparked; owed := false; tmos := tm; lost := false |}.
+
+(** The caller's timeout of the poll in progress (or of the next one to start) is finite. *)
+Definition timed (s : st) : bool := hd false (tmos s).
 
 Definition ppc_code (p : ppc) : Z :=
   match p with
@@ -124,7 +140,7 @@ Definition upd (s : st) (f : st -> st) : st := f s.
 Definition set_p (s : st) (p : ppc) : st :=
   {| md := md s; cap := cap s; sqo := sqo s; pstate := pstate s; sqh := sqh s; sqt := sqt s; cq := cq s; holder := holder s;
      pp := p; polls := polls s; aw := aw s; lh := lh s; seen := seen s; wakers := wakers s;
-     wlh := wlh s; psub := psub s; parked := parked s; owed := owed s; lost := lost s |}.
+     wlh := wlh s; psub := psub s; parked := parked s; owed := owed s; tmos := tmos s; lost := lost s |}.
 
 (** The kernel consumes [k] wake messages: each posts its message completion and, when
     submitted through the ring, the sender's own completion. *)
@@ -134,7 +150,7 @@ Definition consume (s : st) (k : N) : st :=
   {| md := md s; cap := cap s; sqo := sqo s - o; pstate := pstate s; sqh := sqh s + k'; sqt := sqt s;
      cq := cq s + 2 * (k' - o);
      holder := holder s; pp := pp s; polls := polls s; aw := aw s; lh := lh s; seen := seen s;
-     wakers := wakers s; wlh := wlh s; psub := psub s; parked := parked s; owed := owed s; lost := lost s |}.
+     wakers := wakers s; wlh := wlh s; psub := psub s; parked := parked s; owed := owed s; tmos := tmos s; lost := lost s |}.
 
 Definition consume_all (s : st) : st := consume s (sqt s - sqh s).
 
@@ -151,23 +167,23 @@ Definition sq_full (s : st) (loaded_head : N) : bool := cap s <=? sqt s - loaded
 Definition set_lh (s : st) (v : N) : st :=
   {| md := md s; cap := cap s; sqo := sqo s; pstate := pstate s; sqh := sqh s; sqt := sqt s; cq := cq s; holder := holder s;
      pp := pp s; polls := polls s; aw := aw s; lh := v; seen := seen s; wakers := wakers s;
-     wlh := wlh s; psub := psub s; parked := parked s; owed := owed s; lost := lost s |}.
+     wlh := wlh s; psub := psub s; parked := parked s; owed := owed s; tmos := tmos s; lost := lost s |}.
 
 (** The poll returns. *)
 Definition poll_return (s : st) : st :=
   {| md := md s; cap := cap s; sqo := sqo s; pstate := pstate s; sqh := sqh s; sqt := sqt s; cq := cq s;
      holder := holder s; pp := PIdle; polls := pred (polls s); aw := false; lh := lh s; seen := seen s;
-     wakers := wakers s; wlh := wlh s; psub := psub s; parked := parked s; owed := false; lost := lost s |}.
+     wakers := wakers s; wlh := wlh s; psub := psub s; parked := parked s; owed := false; tmos := tl (tmos s); lost := lost s |}.
 
 Definition set_psub (s : st) (v : N) : st :=
   {| md := md s; cap := cap s; sqo := sqo s; pstate := pstate s; sqh := sqh s; sqt := sqt s; cq := cq s; holder := holder s;
      pp := pp s; polls := polls s; aw := aw s; lh := lh s; seen := seen s; wakers := wakers s;
-     wlh := wlh s; psub := v; parked := parked s; owed := owed s; lost := lost s |}.
+     wlh := wlh s; psub := v; parked := parked s; owed := owed s; tmos := tmos s; lost := lost s |}.
 
 Definition set_parked (s : st) (v : N) : st :=
   {| md := md s; cap := cap s; sqo := sqo s; pstate := pstate s; sqh := sqh s; sqt := sqt s; cq := cq s; holder := holder s;
      pp := pp s; polls := polls s; aw := aw s; lh := lh s; seen := seen s; wakers := wakers s;
-     wlh := wlh s; psub := psub s; parked := v; owed := owed s; lost := lost s |}.
+     wlh := wlh s; psub := psub s; parked := v; owed := owed s; tmos := tmos s; lost := lost s |}.
 
 (** [wake_blocked_futures] after its two loads: [submissions_len.saturating_sub(tail - head)] (the
     subtraction of [N] truncates at 0 like [saturating_sub]); it is 0 exactly when [sq_full]. *)
@@ -191,7 +207,8 @@ Definition after_enter_ok (s : st) : st := set_p s PWbH.
 
 Definition enter_wait (s : st) (submitted : N) : st :=
   (* GETEVENTS with min_complete = 1: return at once when a completion is there; with a zero
-     timeout (awoken) report what was submitted, or ETIME when nothing was; otherwise block *)
+     timeout (awoken: [Some(Duration::ZERO)] whatever the caller passed) report what was submitted,
+     or ETIME when nothing was; otherwise block, with the caller's timeout ([timed]) *)
   if 0 <? cq s then after_enter_ok s
   else if aw s then (if 0 <? submitted then after_enter_ok s
                      else set_p s PClearPolling)      (* ETIME: no wake_blocked_futures *)
@@ -208,7 +225,7 @@ Definition submitted_count (s : st) (to_submit : N) : N :=
 Definition clear_polling (s : st) (next : ppc) : st :=
   {| md := md s; cap := cap s; sqo := sqo s; pstate := NOT_POLLING; sqh := sqh s; sqt := sqt s; cq := cq s; holder := holder s;
      pp := next; polls := polls s; aw := aw s; lh := lh s; seen := seen s;
-     wakers := wakers s; wlh := wlh s; psub := psub s; parked := parked s; owed := owed s; lost := lost s |}.
+     wakers := wakers s; wlh := wlh s; psub := psub s; parked := parked s; owed := owed s; tmos := tmos s; lost := lost s |}.
 
 Definition pstep (s : st) : st :=
   match pp s with
@@ -222,18 +239,18 @@ Definition pstep (s : st) : st :=
       if 0 <? cq s then
         {| md := md s; cap := cap s; sqo := sqo s; pstate := pstate s; sqh := sqh s; sqt := sqt s; cq := cq s; holder := holder s;
            pp := PStoreHead; polls := polls s; aw := aw s; lh := lh s; seen := cq s;
-           wakers := wakers s; wlh := wlh s; psub := psub s; parked := parked s; owed := owed s; lost := lost s |}
+           wakers := wakers s; wlh := wlh s; psub := psub s; parked := parked s; owed := owed s; tmos := tmos s; lost := lost s |}
       else set_p s PSetPolling
   | PSetPolling =>
       let awoken := N.testbit (pstate s) 1 in
       {| md := md s; cap := cap s; sqo := sqo s; pstate := IS_POLLING; sqh := sqh s; sqt := sqt s; cq := cq s; holder := holder s;
          pp := match md s with KernelThread => PEnterFlags | _ => PEnterH end;
          polls := polls s; aw := awoken; lh := lh s; seen := seen s;
-         wakers := wakers s; wlh := wlh s; psub := psub s; parked := parked s; owed := owed s; lost := lost s |}
+         wakers := wakers s; wlh := wlh s; psub := psub s; parked := parked s; owed := owed s; tmos := tmos s; lost := lost s |}
   | PEnterH =>
       {| md := md s; cap := cap s; sqo := sqo s; pstate := pstate s; sqh := sqh s; sqt := sqt s; cq := cq s; holder := holder s;
          pp := PEnterT; polls := polls s; aw := aw s; lh := sqh s; seen := seen s;
-         wakers := wakers s; wlh := wlh s; psub := psub s; parked := parked s; owed := owed s; lost := lost s |}
+         wakers := wakers s; wlh := wlh s; psub := psub s; parked := parked s; owed := owed s; tmos := tmos s; lost := lost s |}
   | PEnterT => enter_wait (syscall_submit s (sqt s - lh s)) (submitted_count s (sqt s - lh s))
   | PEnterFlags => enter_wait (syscall_submit s 0) 0
   | PInKernel =>
@@ -251,12 +268,12 @@ Definition pstep (s : st) : st :=
   | PLoadCqT2 =>
       {| md := md s; cap := cap s; sqo := sqo s; pstate := pstate s; sqh := sqh s; sqt := sqt s; cq := cq s; holder := holder s;
          pp := PStoreHead; polls := polls s; aw := aw s; lh := lh s; seen := cq s;
-         wakers := wakers s; wlh := wlh s; psub := psub s; parked := parked s; owed := owed s; lost := lost s |}
+         wakers := wakers s; wlh := wlh s; psub := psub s; parked := parked s; owed := owed s; tmos := tmos s; lost := lost s |}
   | PStoreHead =>
       (* head := tail snapshot *)
       {| md := md s; cap := cap s; sqo := sqo s; pstate := pstate s; sqh := sqh s; sqt := sqt s; cq := cq s - seen s;
          holder := holder s; pp := PEndWbH; polls := polls s; aw := aw s; lh := lh s; seen := 0;
-         wakers := wakers s; wlh := wlh s; psub := psub s; parked := parked s; owed := owed s; lost := lost s |}
+         wakers := wakers s; wlh := wlh s; psub := psub s; parked := parked s; owed := owed s; tmos := tmos s; lost := lost s |}
   | PEndWbH => set_p (set_lh s (sqh s)) PEndWbT
   | PEndWbT => if sq_full s (lh s) then poll_return s else set_p s (PEndWbTry (wbf_available s (lh s)))
   | PEndWbTry a =>
@@ -308,23 +325,23 @@ Definition pintr_loop (s : st) : st :=
 Definition pstuck (s : st) : st :=
   {| md := md s; cap := cap s; sqo := sqo s; pstate := pstate s; sqh := sqh s; sqt := sqt s; cq := cq s; holder := holder s;
      pp := (if psub s =? 0 then PClearPolling else PWbH); polls := polls s; aw := aw s; lh := lh s; seen := seen s;
-     wakers := wakers s; wlh := wlh s; psub := psub s; parked := parked s; owed := owed s; lost := lost s || owed s |}.
+     wakers := wakers s; wlh := wlh s; psub := psub s; parked := parked s; owed := owed s; tmos := tmos s; lost := lost s || owed s |}.
 
 Definition set_w (s : st) (i : nat) (w : waker) : st :=
   {| md := md s; cap := cap s; sqo := sqo s; pstate := pstate s; sqh := sqh s; sqt := sqt s; cq := cq s; holder := holder s;
      pp := pp s; polls := polls s; aw := aw s; lh := lh s; seen := seen s;
      wakers := firstn i (wakers s) ++ w :: skipn (S i) (wakers s);
-     wlh := wlh s; psub := psub s; parked := parked s; owed := owed s; lost := lost s |}.
+     wlh := wlh s; psub := psub s; parked := parked s; owed := owed s; tmos := tmos s; lost := lost s |}.
 
 Definition set_wlh (s : st) (i : nat) (v : N) : st :=
   {| md := md s; cap := cap s; sqo := sqo s; pstate := pstate s; sqh := sqh s; sqt := sqt s; cq := cq s; holder := holder s;
      pp := pp s; polls := polls s; aw := aw s; lh := lh s; seen := seen s; wakers := wakers s;
-     wlh := firstn i (wlh s) ++ v :: skipn (S i) (wlh s); psub := psub s; parked := parked s; owed := owed s; lost := lost s |}.
+     wlh := firstn i (wlh s) ++ v :: skipn (S i) (wlh s); psub := psub s; parked := parked s; owed := owed s; tmos := tmos s; lost := lost s |}.
 
 Definition set_holder (s : st) (h : option nat) : st :=
   {| md := md s; cap := cap s; sqo := sqo s; pstate := pstate s; sqh := sqh s; sqt := sqt s; cq := cq s; holder := h;
      pp := pp s; polls := polls s; aw := aw s; lh := lh s; seen := seen s; wakers := wakers s;
-     wlh := wlh s; psub := psub s; parked := parked s; owed := owed s; lost := lost s |}.
+     wlh := wlh s; psub := psub s; parked := parked s; owed := owed s; tmos := tmos s; lost := lost s |}.
 
 Definition call_done (w : waker) : waker := {| wp := WIdle; calls := pred (calls w); wok := false |}.
 Definition at_pc (w : waker) (p : wpc) : waker := {| wp := p; calls := calls w; wok := wok w |}.
@@ -347,7 +364,7 @@ Definition wstep (s : st) (i : nat) : st :=
             let s1 := {| md := md s; cap := cap s; sqo := sqo s; pstate := N.lor old IS_AWOKEN; sqh := sqh s; sqt := sqt s;
                          cq := cq s; holder := holder s; pp := pp s; polls := polls s; aw := aw s;
                          lh := lh s; seen := seen s; wakers := wakers s; wlh := wlh s;
-                         psub := psub s; parked := parked s; owed := true; lost := lost s |} in
+                         psub := psub s; parked := parked s; owed := true; tmos := tmos s; lost := lost s |} in
             if old =? IS_POLLING then
               match md s with
               | SingleIssuer =>
@@ -355,7 +372,7 @@ Definition wstep (s : st) (i : nat) : st :=
                   let s2 := {| md := md s1; cap := cap s1; sqo := sqo s1; pstate := pstate s1; sqh := sqh s1; sqt := sqt s1;
                                cq := cq s1 + 1; holder := holder s1; pp := pp s1; polls := polls s1;
                                aw := aw s1; lh := lh s1; seen := seen s1; wakers := wakers s1;
-                               wlh := wlh s1; psub := psub s1; parked := parked s1; owed := owed s1; lost := lost s1 |} in
+                               wlh := wlh s1; psub := psub s1; parked := parked s1; owed := owed s1; tmos := tmos s1; lost := lost s1 |} in
                   set_w s2 i (call_done w)
               | _ => set_w s1 i (at_pc w WAddH1)
               end
@@ -383,7 +400,7 @@ Definition wstep (s : st) (i : nat) : st :=
     | WAddStore =>
         let s1 := {| md := md s; cap := cap s; sqo := sqo s; pstate := pstate s; sqh := sqh s; sqt := sqt s + 1; cq := cq s;
                      holder := None; pp := pp s; polls := polls s; aw := aw s; lh := lh s;
-                     seen := seen s; wakers := wakers s; wlh := wlh s; psub := psub s; parked := parked s; owed := owed s; lost := lost s |} in
+                     seen := seen s; wakers := wakers s; wlh := wlh s; psub := psub s; parked := parked s; owed := owed s; tmos := tmos s; lost := lost s |} in
         set_w s1 i (at_pc_ok w (match md s with KernelThread => WEnterFlags | _ => WEnterH end) true)
     | WEnterH => set_w (set_wlh s i (sqh s)) i (at_pc w WEnterT)
     | WEnterT =>
@@ -403,10 +420,19 @@ Definition wstep (s : st) (i : nat) : st :=
     end
   end.
 
+(** The poller is blocked with the caller's finite timeout and the scheduler found nobody who could
+    still run: the timeout expires. The kernel answers like for [pstuck] (ETIME: [Shared::enter]
+    returns [Ok(0)] without [wake_blocked_futures]; or the submitted count when the call had
+    submitted something), [set_polling(false)] is next and the poll returns; when a wake-up is owed
+    the poll has slept its whole timeout through it. *)
+Definition ptimeout (s : st) : st := pstuck s.
+
 (** Events: thread 0 is the poller, thread i+1 is waker i. [Stuck] is the scheduler's report
     that the blocked poller can never be resumed. [PI]: the poller runs its next step and, if
-    that step is (or is inside) the [io_uring_enter] call, the call is interrupted by a signal. *)
-Inductive ev := P | W (i : nat) | Stuck | PI.
+    that step is (or is inside) the [io_uring_enter] call, the call is interrupted by a signal.
+    [Timeout]: the scheduler's report that nobody is left to wake the poller, which is blocked
+    with a finite timeout: the timeout expires. *)
+Inductive ev := P | W (i : nat) | Stuck | PI | Timeout.
 
 Definition step (s : st) (e : ev) : st * list Z :=
   match e with
@@ -414,6 +440,7 @@ Definition step (s : st) (e : ev) : st * list Z :=
   | W i => (wstep s i, [])
   | Stuck => (match pp s with PInKernel => pstuck s | _ => s end, [])
   | PI => (pintr s, [])
+  | Timeout => (match pp s with PInKernel => if timed s then ptimeout s else s | _ => s end, [])
   end.
 
 (** The step function of the retrying variant (refutation only). *)
@@ -421,6 +448,61 @@ Definition step_loop (s : st) (e : ev) : st * list Z :=
   match e with
   | P => (pstep_loop s, [])
   | PI => (pintr_loop s, [])
+  | _ => step s e
+  end.
+
+(** * NOT the code as it is: seeded change C11-j (refutation only, [kept_timeout_loses_wakeup]).
+    [Completions::poll] computes the timeout with [timeout.or(awoken.then_some(Duration::ZERO))]:
+    the caller's [Some(t)] is kept although [set_polling(true)] reported "awoken" (and consumed the
+    bit); only a poll called with [None] gets the zero timeout. *)
+Definition enter_wait_or (s : st) (submitted : N) : st :=
+  if 0 <? cq s then after_enter_ok s
+  else if timed s then set_psub (set_p s PInKernel) submitted      (* Some(t).or(..) = Some(t): waits *)
+  else if aw s then (if 0 <? submitted then after_enter_ok s else set_p s PClearPolling)
+  else set_psub (set_p s PInKernel) submitted.
+
+Definition pstep_or (s : st) : st :=
+  match pp s with
+  | PEnterT => enter_wait_or (syscall_submit s (sqt s - lh s)) (submitted_count s (sqt s - lh s))
+  | PEnterFlags => enter_wait_or (syscall_submit s 0) 0
+  | _ => pstep s
+  end.
+
+Definition step_or (s : st) (e : ev) : st * list Z :=
+  match e with
+  | P => (pstep_or s, [])
+  | _ => step s e
+  end.
+
+(** * NOT the code as it is: seeded change C11-i (refutation only, [refused_enter_loses_wakeup]).
+    [Shared::single_issuer] is false on a ring set up with IORING_SETUP_SINGLE_ISSUER (it is read
+    from the wrong flag): [Submissions::wake] takes the ordinary path, [add] + [io_uring_enter]
+    from the waking thread. The kernel refuses that enter with EEXIST before doing anything (the
+    caller is not the issuer of the ring): nothing is submitted, [Shared::enter] returns the error
+    (no [wake_blocked_futures]), [wake()] returns it ([?]) whether its [add] had succeeded or not,
+    and [SubmissionQueue::wake] only logs it. *)
+Definition set_md (s : st) (m : mode) : st :=
+  {| md := m; cap := cap s; sqo := sqo s; pstate := pstate s; sqh := sqh s; sqt := sqt s; cq := cq s; holder := holder s;
+     pp := pp s; polls := polls s; aw := aw s; lh := lh s; seen := seen s; wakers := wakers s;
+     wlh := wlh s; psub := psub s; parked := parked s; owed := owed s; tmos := tmos s; lost := lost s |}.
+
+Definition wstep_nsi (s : st) (i : nat) : st :=
+  match md s with
+  | SingleIssuer =>
+      match nth_error (wakers s) i with
+      | None => s
+      | Some w =>
+          match wp w with
+          | WEnterT => set_w s i (call_done w)                              (* EEXIST *)
+          | _ => set_md (wstep (set_md s Default) i) SingleIssuer           (* the ordinary path *)
+          end
+      end
+  | _ => wstep s i
+  end.
+
+Definition step_nsi (s : st) (e : ev) : st * list Z :=
+  match e with
+  | W i => (wstep_nsi s i, [])
   | _ => step s e
   end.
 
@@ -438,10 +520,10 @@ Definition HAS_WAITING : N := 4.
 Definition set_pstate (s : st) (v : N) : st :=
   {| md := md s; cap := cap s; sqo := sqo s; pstate := v; sqh := sqh s; sqt := sqt s; cq := cq s; holder := holder s;
      pp := pp s; polls := polls s; aw := aw s; lh := lh s; seen := seen s; wakers := wakers s;
-     wlh := wlh s; psub := psub s; parked := parked s; owed := owed s; lost := lost s |}.
+     wlh := wlh s; psub := psub s; parked := parked s; owed := owed s; tmos := tmos s; lost := lost s |}.
 
-Definition init_hw (m : mode) (c prefill nparked : N) (npolls : nat) (wcalls : list nat) : st :=
-  set_pstate (init m c prefill nparked npolls wcalls) (if 0 <? nparked then HAS_WAITING else 0).
+Definition init_hw (m : mode) (c prefill nparked : N) (npolls : nat) (tm : list bool) (wcalls : list nat) : st :=
+  set_pstate (init m c prefill nparked npolls tm wcalls) (if 0 <? nparked then HAS_WAITING else 0).
 
 (** Every base step writes a word without bit 2 (the swaps) or keeps all bits ([fetch_or]): the
     variant keeps bit 2 of the old word. *)
@@ -491,7 +573,12 @@ Definition step_hw (s : st) (e : ev) : st * list Z :=
   end.
 
 (** * Correspondence driver: per executed step the scheduling-point code the model expects the
-    thread to be resumed from; at the end whether a wake-up was lost, how many polls returned. *)
+    thread to be resumed from; at the end whether a wake-up was lost, how many polls returned.
+    The scheduler's two reports about a blocked poller: 999 ([Stuck]) for a wait without a
+    timeout, 996 ([Timeout]) for a wait with one; the other way round the replay diverges. *)
+Definition timed_wait (s : st) : bool :=
+  match pp s with PInKernel => timed s | _ => false end.
+
 Fixpoint run_steps (s : st) (es : list ev) : st * list Z :=
   match es with
   | [] => (s, [])
@@ -499,17 +586,19 @@ Fixpoint run_steps (s : st) (es : list ev) : st * list Z :=
       let here := match e with
                   | P => ppc_code (pp s)
                   | W i => match nth_error (wakers s) i with Some w => wpc_code (wp w) | None => (-9)%Z end
-                  | Stuck => 999%Z
+                  | Stuck => if timed_wait s then (-9)%Z else 999%Z
                   | PI => match pp s with PInKernel => 997%Z | p => ppc_code p end
+                  | Timeout => if timed_wait s then 996%Z else (-9)%Z
                   end in
       let '(s1, o) := run_steps (fst (step s e)) r in (s1, here :: o)
   end.
 
-Record wkcase := { wk_mode : mode; wk_cap : N; wk_prefill : N; wk_parked : N; wk_polls : nat; wk_wakes : list nat;
+Record wkcase := { wk_mode : mode; wk_cap : N; wk_prefill : N; wk_parked : N; wk_polls : nat;
+                   wk_timed : list bool (* per poll: [Some(finite)] *); wk_wakes : list nat;
                    wk_events : list ev }.
 
 Definition run_wkcase (c : wkcase) : list Z :=
-  let '(s, o) := run_steps (init (wk_mode c) (wk_cap c) (wk_prefill c) (wk_parked c) (wk_polls c) (wk_wakes c)) (wk_events c) in
+  let '(s, o) := run_steps (init (wk_mode c) (wk_cap c) (wk_prefill c) (wk_parked c) (wk_polls c) (wk_timed c) (wk_wakes c)) (wk_events c) in
   o ++ [(-1)%Z; bz (lost s); Z.of_nat (polls s); nz (cq s); nz (sqt s - sqh s); nz (parked s)].
 
 (** The same for the seeded variant (not used by [bin/check]; for replaying the seeded code by hand). *)
@@ -520,11 +609,12 @@ Fixpoint run_steps_hw (s : st) (es : list ev) : st * list Z :=
       let here := match e with
                   | P => ppc_code (pp s)
                   | W i => match nth_error (wakers s) i with Some w => wpc_code (wp w) | None => (-9)%Z end
-                  | Stuck => 999%Z
+                  | Stuck => if timed_wait s then (-9)%Z else 999%Z
                   | PI => match pp s with PInKernel => 997%Z | p => ppc_code p end
+                  | Timeout => if timed_wait s then 996%Z else (-9)%Z
                   end in
       let '(s1, o) := run_steps_hw (fst (step_hw s e)) r in (s1, here :: o)
   end.
 Definition run_wkcase_hw (c : wkcase) : list Z :=
-  let '(s, o) := run_steps_hw (init_hw (wk_mode c) (wk_cap c) (wk_prefill c) (wk_parked c) (wk_polls c) (wk_wakes c)) (wk_events c) in
+  let '(s, o) := run_steps_hw (init_hw (wk_mode c) (wk_cap c) (wk_prefill c) (wk_parked c) (wk_polls c) (wk_timed c) (wk_wakes c)) (wk_events c) in
   o ++ [(-1)%Z; bz (lost s); Z.of_nat (polls s); nz (cq s); nz (sqt s - sqh s); nz (parked s)].
